@@ -5,16 +5,6 @@ import FontcProofs.CastsFields
 namespace Fontc.Casts
 open Fontc
 
-/-- where an unchecked fixed-width `+`/`-` overflows (the only source of profile dependence) -/
-def Overflows : Field → Rat → Prop
-  | .pointDelta, v | .tsb, v => ¬ inI16 v.floor
-  | .endPt, v => wrapU16 (cnt v) = 0
-  | .compositeTotal, v => 65535 < cnt v
-  | _, _ => False
-
-instance (f : Field) (v : Rat) : Decidable (Overflows f v) := by
-  cases f <;> unfold Overflows <;> infer_instance
-
 theorem profile_independent (f : Field) (v : Rat) (h : profileSensitive f = false) :
     fieldPipeline f v .debug = fieldPipeline f v .release := by
   cases f <;> simp [profileSensitive] at h <;> rfl
